@@ -224,7 +224,7 @@ func (fr *Frame) applyContract(st *State, site ssa.Instruction, c *Contract, fn 
 	for i := range args {
 		vars[fmt.Sprintf("arg%d", i)] = args[i]
 	}
-	se := &SpecEnv{fr: fr, st: st, old: st, vars: vars, pkg: fn.Pkg, fn: fn}
+	se := &SpecEnv{fr: fr, st: st, old: st, vars: vars, pkg: fn.Pkg, fn: fn, callee: true}
 	short := fn.Name()
 	if r := fn.Signature.Recv(); r != nil {
 		short = recvName(r.Type()) + "." + short
@@ -600,7 +600,7 @@ func (v *Verifier) freshLikeT(name string, cur Value, t types.Type) Value {
 	switch c := cur.(type) {
 	case *Term:
 		if v.isAbstract(t) {
-			return F.Var(name, v.abstractSort(t))
+			return v.abstractVar(name, t)
 		}
 		if c.S == SInt {
 			if ii, ok := intKind(t); ok {
@@ -1262,7 +1262,7 @@ func (v *Verifier) layerCompatible(fn *ssa.Function, c *Contract) bool {
 		f := strings.Fields(c.Layer)
 		kind := f[0]
 		for _, tn := range f {
-			if tn == "ring" || tn == "opaque" || tn == "bigint" {
+			if isLayerKind(tn) {
 				kind = tn
 				continue
 			}
